@@ -67,4 +67,655 @@ theorem runOps_no_hang (P : Params) (fuel : Nat) (ops : List Op) :
     | panic => simp [runOps]
     | hang => exact absurd rfl h
 
+/-! ### association lists, links -/
+
+theorem alookup_aerase {β : Type} (m : List (Path × β)) (k q : Path) :
+    alookup (aerase m k) q = if q = k then none else alookup m q := by
+  induction m with
+  | nil => simp [aerase, alookup]
+  | cons e r ih =>
+    obtain ⟨a, b⟩ := e
+    unfold aerase at ih ⊢
+    by_cases h : a = k
+    · subst h
+      simp only [List.filter, beq_self_eq_true, Bool.not_true]
+      rw [ih]
+      by_cases hq : q = a
+      · simp [hq]
+      · have : ¬ a = q := fun h => hq h.symm
+        simp [hq, alookup, this]
+    · have hb : (a == k) = false := by simp [h]
+      simp only [List.filter, hb, Bool.not_false]
+      simp only [alookup]
+      rw [ih]
+      by_cases haq : a = q
+      · subst haq; simp [h]
+      · simp [haq]
+
+theorem alookup_ainsert {β : Type} (m : List (Path × β)) (k q : Path) (v : β) :
+    alookup (ainsert m k v) q = if q = k then some v else alookup m q := by
+  unfold ainsert
+  simp only [alookup]
+  rw [alookup_aerase]
+  by_cases h : k = q
+  · subst h; simp
+  · have : ¬ q = k := fun h' => h h'.symm
+    simp [h, this]
+
+theorem mem_unlink (ext : List (Path × Nat)) (d : Path) (i : Nat) (e : Path × Nat) :
+    e ∈ unlink ext d i ↔ e ∈ ext ∧ ¬ (e.1 = d ∧ e.2 = i) := by
+  simp [unlink]; grind
+
+theorem mem_link (ext : List (Path × Nat)) (d : Path) (i : Nat) (e : Path × Nat) :
+    e ∈ link ext d i ↔ e ∈ ext ∨ e = (d, i) := by
+  unfold link
+  split
+  · rename_i h
+    simp at h
+    constructor
+    · intro h'; exact Or.inl h'
+    · rintro (h' | h')
+      · exact h'
+      · subst h'; exact h
+  · simp; grind
+
+theorem mem_unlinkAll (ds : List Path) : ∀ (ext : List (Path × Nat)) (i : Nat) (e : Path × Nat),
+    e ∈ unlinkAll ext i ds ↔ e ∈ ext ∧ ¬ (e.2 = i ∧ e.1 ∈ ds) := by
+  induction ds with
+  | nil => intro ext i e; simp [unlinkAll]
+  | cons d ds ih =>
+    intro ext i e
+    simp only [unlinkAll]
+    rw [ih, mem_unlink]
+    simp only [List.mem_cons]
+    grind
+
+theorem mem_linkAll (ds : List Path) : ∀ (ext : List (Path × Nat)) (i : Nat) (e : Path × Nat),
+    e ∈ linkAll ext i ds ↔ e ∈ ext ∨ (e.2 = i ∧ e.1 ∈ ds) := by
+  induction ds with
+  | nil => intro ext i e; simp [linkAll]
+  | cons d ds ih =>
+    intro ext i e
+    simp only [linkAll]
+    rw [ih, mem_link]
+    simp only [List.mem_cons]
+    constructor
+    · rintro ((h | h) | h)
+      · exact Or.inl h
+      · subst h; exact Or.inr ⟨rfl, Or.inl rfl⟩
+      · exact Or.inr ⟨h.1, Or.inr h.2⟩
+    · rintro (h | ⟨h1, h2 | h2⟩)
+      · exact Or.inl (Or.inl h)
+      · left; right; cases e; simp_all
+      · exact Or.inr ⟨h1, h2⟩
+
+
+theorem alookup_some_mem {β : Type} (m : List (Path × β)) (k : Path) (v : β) :
+    alookup m k = some v → (k, v) ∈ m := by
+  induction m with
+  | nil => simp [alookup]
+  | cons e r ih =>
+    obtain ⟨a, b⟩ := e
+    simp only [alookup]
+    split
+    · rename_i h; subst h; intro h; simp at h; subst h; simp
+    · intro h; simp [ih h]
+
+theorem alookup_none_not_mem {β : Type} (m : List (Path × β)) (k : Path) :
+    alookup m k = none → ∀ v, (k, v) ∉ m := by
+  induction m with
+  | nil => simp
+  | cons e r ih =>
+    obtain ⟨a, b⟩ := e
+    simp only [alookup]
+    split
+    · simp
+    · rename_i h; intro hn v hm
+      simp at hm
+      rcases hm with hm | hm
+      · exact h hm.1.symm
+      · exact ih hn v hm
+
+theorem alookup_isSome_iff {β : Type} (m : List (Path × β)) (k : Path) :
+    (alookup m k).isSome = true ↔ ∃ v, (k, v) ∈ m := by
+  constructor
+  · intro h
+    cases hl : alookup m k with
+    | none => simp [hl] at h
+    | some v => exact ⟨v, alookup_some_mem m k v hl⟩
+  · rintro ⟨v, hv⟩
+    cases hl : alookup m k with
+    | none => exact absurd hv (alookup_none_not_mem m k hl v)
+    | some v => simp
+
+/-- slot accessor on the node list -/
+def nodeAt (nodes : List (Option Item)) (i : Nat) : Option Item :=
+  match nodes[i]? with
+  | some (some it) => some it
+  | _ => none
+
+theorem item?_eq (st : State) (i : Nat) : st.item? i = nodeAt st.nodes i := rfl
+
+theorem nodeAt_lt {nodes : List (Option Item)} {i : Nat} {it : Item} :
+    nodeAt nodes i = some it → i < nodes.length := by
+  unfold nodeAt
+  intro h
+  by_cases hi : i < nodes.length
+  · exact hi
+  · simp [List.getElem?_eq_none (Nat.le_of_not_lt hi)] at h
+
+theorem nodeAt_set (nodes : List (Option Item)) (i j : Nat) (x : Option Item) :
+    nodeAt (nodes.set i x) j = if j = i then (if i < nodes.length then x else none) else nodeAt nodes j := by
+  unfold nodeAt
+  rw [List.getElem?_set]
+  by_cases h : i = j
+  · subst h
+    by_cases hl : i < nodes.length
+    · simp [hl]; cases x <;> rfl
+    · simp [hl]
+  · have : ¬ j = i := fun h' => h h'.symm
+    simp [h, this]
+
+theorem nodeAt_append (nodes : List (Option Item)) (j : Nat) (x : Option Item) :
+    nodeAt (nodes ++ [x]) j = if j = nodes.length then x else nodeAt nodes j := by
+  unfold nodeAt
+  by_cases h : j < nodes.length
+  · rw [List.getElem?_append_left h]
+    have : ¬ j = nodes.length := by omega
+    simp [this]
+  · by_cases h2 : j = nodes.length
+    · subst h2
+      simp
+      cases x <;> rfl
+    · have h3 : nodes.length < j := by omega
+      have : (nodes ++ [x])[j]? = none := by
+        apply List.getElem?_eq_none; simp; omega
+      rw [this]
+      have : nodes[j]? = none := List.getElem?_eq_none (by omega)
+      simp [this, h2]
+
+
+/-- The invariant of the worker between operations. `last` is the configuration of the last
+pass (ghost). -/
+structure Inv (P : Params) (init : Fs) (last : Cfg) (st : State) : Prop where
+  nm_fun : ∀ p i j, (p, i) ∈ st.nodeMap → (p, j) ∈ st.nodeMap → i = j
+  nm_item : ∀ p i, (p, i) ∈ st.nodeMap →
+    ∃ it, st.item? i = some it ∧ it.source = p ∧ it.output = outPath P p
+  item_nm : ∀ i it, st.item? i = some it → (it.source, i) ∈ st.nodeMap
+  free_ok : ∀ i, i ∈ st.free → i < st.nodes.length ∧ st.item? i = none
+  free_nodup : st.free.Nodup
+  src_in : ∀ p i, (p, i) ∈ st.nodeMap →
+    startsWith p P.input = true ∧ P.isLua p = true ∧ (alookup st.fs p).isSome = true
+  ext_sub : ∀ d i, (d, i) ∈ st.extDeps → ∃ it, st.item? i = some it ∧ d ∈ it.deps
+  ext_sup : ∀ i it, st.item? i = some it → it.status.isDone = true → ∀ d, d ∈ it.deps → (d, i) ∈ st.extDeps
+  ns_deps : ∀ i it, st.item? i = some it → it.status = .notStarted → it.deps = []
+  done_ok : ∀ i it ok, st.item? i = some it → it.status = .done ok →
+    (∀ d, d ∈ it.deps ↔ d ∈ (P.T last (alookup st.fs) it.source).deps) ∧
+    ok = (P.T last (alookup st.fs) it.source).out.isSome ∧
+    alookup st.fs it.output = (P.T last (alookup st.fs) it.source).out
+  out_other : ∀ q, startsWith q P.output = true →
+    (∃ i it, st.item? i = some it ∧ it.output = q) ∨ q ∈ st.removeFiles ∨ alookup st.fs q = alookup init q
+  rm_src : ∀ q, q ∈ st.removeFiles → ∃ p, P.isLua p = true ∧ startsWith p P.input = true ∧ q = outPath P p
+
+/-- every source on disk has a work item (what `collect_work` establishes) -/
+def Synced (P : Params) (st : State) : Prop :=
+  ∀ p, (alookup st.fs p).isSome = true → startsWith p P.input = true → P.isLua p = true →
+    ∃ i, (p, i) ∈ st.nodeMap
+
+/-! ### restart_work -/
+
+def restartedState (st : State) (i : Nat) (it : Item) : State :=
+  { st with extDeps := unlinkAll st.extDeps i it.deps, nodes := st.nodes.set i (some it.reset) }
+
+theorem restartWork_spec {st : State} {i : Nat} {it : Item} (h : st.item? i = some it) :
+    restartWork st i = some (restartedState st i it) := by
+  simp [restartWork, h, restartedState]
+
+theorem restartWork_inv {P : Params} {init : Fs} {last : Cfg} {st st' : State} {i : Nat}
+    (hI : Inv P init last st) (h : restartWork st i = some st') :
+    Inv P init last st' ∧ st'.fs = st.fs ∧ st'.nodeMap = st.nodeMap ∧ st'.removeFiles = st.removeFiles
+    ∧ st'.cfg = st.cfg ∧ st'.hasCreated = st.hasCreated ∧ st'.free = st.free
+    ∧ st'.nodes.length = st.nodes.length
+    ∧ (∀ j, st'.item? j = if j = i then (st.item? i).map Item.reset else st.item? j)
+    ∧ (∀ d j, (d, j) ∈ st'.extDeps ↔ (d, j) ∈ st.extDeps ∧ j ≠ i) := by
+  cases hit : st.item? i with
+  | none => simp [restartWork, hit] at h
+  | some it =>
+    rw [restartWork_spec hit] at h
+    simp only [Option.some.injEq] at h
+    subst h
+    have hlt : i < st.nodes.length := nodeAt_lt hit
+    have hitem : ∀ j, (restartedState st i it).item? j = if j = i then some it.reset else st.item? j := by
+      intro j
+      simp only [item?_eq, restartedState, nodeAt_set, hlt, if_true]
+    have hext : ∀ d j, (d, j) ∈ (restartedState st i it).extDeps ↔ (d, j) ∈ st.extDeps ∧ j ≠ i := by
+      intro d j
+      simp only [restartedState]
+      rw [mem_unlinkAll]
+      constructor
+      · rintro ⟨h1, h2⟩
+        refine ⟨h1, ?_⟩
+        intro hji
+        subst hji
+        obtain ⟨it', h3, h4⟩ := hI.ext_sub d j h1
+        rw [hit] at h3
+        simp at h3; subst h3
+        exact h2 ⟨rfl, h4⟩
+      · rintro ⟨h1, h2⟩
+        exact ⟨h1, fun h3 => h2 h3.1⟩
+    refine ⟨?_, rfl, rfl, rfl, rfl, rfl, rfl, by simp [restartedState], ?_, hext⟩
+    · constructor
+      · exact hI.nm_fun
+      · intro p k hk
+        obtain ⟨it', h1, h2, h3⟩ := hI.nm_item p k hk
+        rw [hitem]
+        by_cases hki : k = i
+        · subst hki
+          rw [hit] at h1; simp at h1; subst h1
+          exact ⟨it.reset, by simp, h2, h3⟩
+        · exact ⟨it', by simp [hki, h1], h2, h3⟩
+      · intro k it' hk
+        rw [hitem] at hk
+        by_cases hki : k = i
+        · subst hki
+          simp at hk; subst hk
+          exact hI.item_nm k it hit
+        · simp [hki] at hk
+          exact hI.item_nm k it' hk
+      · intro k hk
+        have := hI.free_ok k hk
+        refine ⟨by simpa [restartedState] using this.1, ?_⟩
+        rw [hitem]
+        by_cases hki : k = i
+        · subst hki; rw [hit] at this; simp at this
+        · simp [hki, this.2]
+      · exact hI.free_nodup
+      · exact hI.src_in
+      · intro d k hk
+        rw [hext] at hk
+        obtain ⟨it', h1, h2⟩ := hI.ext_sub d k hk.1
+        exact ⟨it', by rw [hitem]; simp [hk.2, h1], h2⟩
+      · intro k it' hk hd d hdm
+        rw [hitem] at hk
+        by_cases hki : k = i
+        · subst hki; simp at hk; subst hk; simp [Item.reset, Status.isDone] at hd
+        · simp [hki] at hk
+          rw [hext]
+          exact ⟨hI.ext_sup k it' hk hd d hdm, hki⟩
+      · intro k it' hk hs
+        rw [hitem] at hk
+        by_cases hki : k = i
+        · subst hki; simp at hk; subst hk; rfl
+        · simp [hki] at hk; exact hI.ns_deps k it' hk hs
+      · intro k it' ok hk hs
+        rw [hitem] at hk
+        by_cases hki : k = i
+        · subst hki; simp at hk; subst hk; simp [Item.reset] at hs
+        · simp [hki] at hk; exact hI.done_ok k it' ok hk hs
+      · intro q hq
+        rcases hI.out_other q hq with ⟨k, it', h1, h2⟩ | h | h
+        · left
+          by_cases hki : k = i
+          · subst hki
+            rw [hit] at h1; simp at h1; subst h1
+            exact ⟨k, it.reset, by rw [hitem]; simp, h2⟩
+          · exact ⟨k, it', by rw [hitem]; simp [hki, h1], h2⟩
+        · exact Or.inr (Or.inl h)
+        · exact Or.inr (Or.inr h)
+      · exact hI.rm_src
+    · intro j
+      rw [hitem]
+      rfl
+
+
+/-- what restarting leaves untouched -/
+structure Frame (st st' : State) : Prop where
+  fs : st'.fs = st.fs
+  nodeMap : st'.nodeMap = st.nodeMap
+  removeFiles : st'.removeFiles = st.removeFiles
+  cfg : st'.cfg = st.cfg
+  hasCreated : st'.hasCreated = st.hasCreated
+  free : st'.free = st.free
+  lastHash : st'.lastHash = st.lastHash
+  len : st'.nodes.length = st.nodes.length
+
+theorem Frame.refl (st : State) : Frame st st := ⟨rfl, rfl, rfl, rfl, rfl, rfl, rfl, rfl⟩
+
+theorem Frame.trans {a b c : State} (h1 : Frame a b) (h2 : Frame b c) : Frame a c :=
+  ⟨h2.fs.trans h1.fs, h2.nodeMap.trans h1.nodeMap, h2.removeFiles.trans h1.removeFiles,
+   h2.cfg.trans h1.cfg, h2.hasCreated.trans h1.hasCreated, h2.free.trans h1.free,
+   h2.lastHash.trans h1.lastHash, h2.len.trans h1.len⟩
+
+theorem restartWork_frame {st st' : State} {i : Nat} (h : restartWork st i = some st') : Frame st st' := by
+  cases hit : st.item? i with
+  | none => simp [restartWork, hit] at h
+  | some it =>
+    rw [restartWork_spec hit] at h
+    simp only [Option.some.injEq] at h
+    subst h
+    exact ⟨rfl, rfl, rfl, rfl, rfl, rfl, rfl, by simp [restartedState]⟩
+
+theorem reset_reset (it : Item) : it.reset.reset = it.reset := rfl
+
+theorem restartAll_inv {P : Params} {init : Fs} {last : Cfg} (is : List Nat) :
+    ∀ (st : State), Inv P init last st → (∀ i, i ∈ is → (st.item? i).isSome = true) →
+    ∃ st', restartAll st is = some st' ∧ Inv P init last st' ∧ Frame st st'
+      ∧ (∀ j, st'.item? j = if j ∈ is then (st.item? j).map Item.reset else st.item? j)
+      ∧ (∀ d j, (d, j) ∈ st'.extDeps ↔ (d, j) ∈ st.extDeps ∧ j ∉ is) := by
+  induction is with
+  | nil => intro st hI _; exact ⟨st, rfl, hI, Frame.refl st, by simp, by simp⟩
+  | cons i is ih =>
+    intro st hI hocc
+    have hi := hocc i (by simp)
+    cases hit : st.item? i with
+    | none => simp [hit] at hi
+    | some it =>
+      have hspec := restartWork_spec hit
+      obtain ⟨hI1, _, _, _, _, _, _, _, hitem1, hext1⟩ := restartWork_inv hI hspec
+      have hfr1 := restartWork_frame hspec
+      have hocc1 : ∀ k, k ∈ is → ((restartedState st i it).item? k).isSome = true := by
+        intro k hk
+        rw [hitem1]
+        have := hocc k (by simp [hk])
+        by_cases hki : k = i
+        · subst hki; simp [hit]
+        · simp [hki, this]
+      obtain ⟨st', h1, h2, h3, h4, h5⟩ := ih _ hI1 hocc1
+      refine ⟨st', ?_, h2, hfr1.trans h3, ?_, ?_⟩
+      · simp only [restartAll, hspec]; exact h1
+      · intro j
+        rw [h4, hitem1]
+        by_cases hji : j = i
+        · subst hji
+          simp [hit]
+          by_cases hm : j ∈ is <;> simp [hm, reset_reset]
+        · by_cases hm : j ∈ is <;> simp [hji, hm]
+      · intro d j
+        rw [h5, hext1]
+        simp only [List.mem_cons]
+        grind
+
+
+def withFs (st : State) (f : Fs) : State := { st with fs := f }
+
+theorem restartWork_withFs (st : State) (f : Fs) (i : Nat) :
+    restartWork (withFs st f) i = (restartWork st i).map (withFs · f) := by
+  unfold restartWork
+  have : (withFs st f).item? i = st.item? i := rfl
+  rw [this]
+  cases st.item? i <;> rfl
+
+theorem restartAll_withFs (f : Fs) (is : List Nat) : ∀ (st : State),
+    restartAll (withFs st f) is = (restartAll st is).map (withFs · f) := by
+  induction is with
+  | nil => intro st; rfl
+  | cons i is ih =>
+    intro st
+    simp only [restartAll, restartWork_withFs]
+    cases restartWork st i with
+    | none => rfl
+    | some st1 => simp only [Option.map]; exact ih st1
+
+theorem updateExt_withFs (st : State) (f : Fs) (p : Path) :
+    updateExternalDependencies (withFs st f) p = (updateExternalDependencies st p).map (withFs · f) := by
+  unfold updateExternalDependencies
+  exact restartAll_withFs f _ st
+
+theorem sourceChanged_withFs (st : State) (f : Fs) (p : Path) :
+    sourceChanged (withFs st f) p = (sourceChanged st p).map (withFs · f) := by
+  unfold sourceChanged
+  have h1 : (withFs st f).nodeMap = st.nodeMap := rfl
+  simp only [h1]
+  cases alookup st.nodeMap p with
+  | some i =>
+    simp only [restartWork_withFs]
+    cases restartWork st i with
+    | none => rfl
+    | some st1 => simp only [Option.map]; exact updateExt_withFs st1 f p
+  | none =>
+    simp only [restartAll_withFs]
+    cases restartAll st _ with
+    | none => rfl
+    | some st1 => simp only [Option.map]; exact updateExt_withFs st1 f p
+
+theorem mem_extOf (ext : List (Path × Nat)) (p : Path) (j : Nat) : j ∈ extOf ext p ↔ (p, j) ∈ ext := by
+  unfold extOf
+  simp only [List.mem_map, List.mem_filter, beq_iff_eq]
+  constructor
+  · rintro ⟨⟨a, b⟩, ⟨h1, h2⟩, h3⟩
+    simp at h2 h3; subst h2; subst h3; exact h1
+  · intro h; exact ⟨(p, j), ⟨h, rfl⟩, rfl⟩
+
+theorem updateExt_inv {P : Params} {init : Fs} {last : Cfg} {st : State} (p : Path)
+    (hI : Inv P init last st) :
+    ∃ st', updateExternalDependencies st p = some st' ∧ Inv P init last st' ∧ Frame st st'
+      ∧ (∀ j, st'.item? j = st.item? j ∨ st'.item? j = (st.item? j).map Item.reset)
+      ∧ (∀ d j, (d, j) ∈ st'.extDeps → (d, j) ∈ st.extDeps)
+      ∧ (∀ j, (p, j) ∉ st'.extDeps) := by
+  unfold updateExternalDependencies
+  have hocc : ∀ i, i ∈ extOf st.extDeps p → (st.item? i).isSome = true := by
+    intro i hi
+    rw [mem_extOf] at hi
+    obtain ⟨it, h1, _⟩ := hI.ext_sub p i hi
+    simp [h1]
+  obtain ⟨st', h1, h2, h3, h4, h5⟩ := restartAll_inv _ st hI hocc
+  refine ⟨st', h1, h2, h3, ?_, ?_, ?_⟩
+  · intro j; rw [h4]; by_cases hm : j ∈ extOf st.extDeps p <;> simp [hm]
+  · intro d j h; exact ((h5 d j).1 h).1
+  · intro j h
+    have := (h5 p j).1 h
+    exact this.2 ((mem_extOf _ _ _).2 this.1)
+
+/-- `source_changed` never panics on a state satisfying the invariant; afterwards no item is
+linked to `path` any more and the item of `path` itself (if any) is pending. -/
+theorem sourceChanged_inv {P : Params} {init : Fs} {last : Cfg} {st : State} (p : Path)
+    (hI : Inv P init last st) :
+    ∃ st', sourceChanged st p = some st' ∧ Inv P init last st' ∧ Frame st st'
+      ∧ (∀ j, st'.item? j = st.item? j ∨ st'.item? j = (st.item? j).map Item.reset)
+      ∧ (∀ j, (p, j) ∉ st'.extDeps)
+      ∧ (∀ i, (p, i) ∈ st.nodeMap → st'.item? i = (st.item? i).map Item.reset) := by
+  unfold sourceChanged
+  cases hl : alookup st.nodeMap p with
+  | some i =>
+    have hmem := alookup_some_mem _ _ _ hl
+    obtain ⟨it, hit, _, _⟩ := hI.nm_item p i hmem
+    have hspec := restartWork_spec hit
+    obtain ⟨hI1, _, _, _, _, _, _, _, hitem1, hext1⟩ := restartWork_inv hI hspec
+    have hfr1 := restartWork_frame hspec
+    obtain ⟨st', h1, h2, h3, h4, h5, h6⟩ := updateExt_inv p hI1
+    refine ⟨st', ?_, h2, hfr1.trans h3, ?_, h6, ?_⟩
+    · simp only [hspec]; exact h1
+    · intro j
+      rcases h4 j with h | h <;> rw [h, hitem1] <;> by_cases hji : j = i
+      · subst hji; right; simp [hit]
+      · left; simp [hji]
+      · subst hji; right; simp [hit, reset_reset]
+      · right; simp [hji]
+    · intro k hk
+      have := hI.nm_fun p i k hmem hk
+      subst this
+      rcases h4 i with h | h <;> rw [h, hitem1] <;> simp [hit, reset_reset]
+  | none =>
+    have hocc : ∀ i, i ∈ (st.nodeMap.filter fun e => startsWith e.1 p).map (·.2) → (st.item? i).isSome = true := by
+      intro i hi
+      simp only [List.mem_map, List.mem_filter] at hi
+      obtain ⟨⟨a, b⟩, ⟨h1, _⟩, h3⟩ := hi
+      simp at h3; subst h3
+      obtain ⟨it, h4, _⟩ := hI.nm_item a b h1
+      simp [h4]
+    obtain ⟨st1, g1, g2, g3, g4, g5⟩ := restartAll_inv _ st hI hocc
+    obtain ⟨st', h1, h2, h3, h4, h5, h6⟩ := updateExt_inv p g2
+    refine ⟨st', ?_, h2, g3.trans h3, ?_, h6, ?_⟩
+    · simp only [g1]; exact h1
+    · intro j
+      rcases h4 j with h | h <;> rw [h, g4] <;>
+        by_cases hm : j ∈ (st.nodeMap.filter fun e => startsWith e.1 p).map (·.2) <;> simp [hm]
+      cases st.item? j <;> simp [reset_reset]
+    · intro k hk
+      exact absurd hk (alookup_none_not_mem _ _ hl k)
+
+
+theorem nodeAt_mem {nodes : List (Option Item)} {j : Nat} {it : Item} (h : nodeAt nodes j = some it) :
+    some it ∈ nodes := by
+  unfold nodeAt at h
+  cases hg : nodes[j]? with
+  | none => simp [hg] at h
+  | some o =>
+    cases o with
+    | none => simp [hg] at h
+    | some it' =>
+      simp [hg] at h; subst h
+      exact List.mem_of_getElem? hg
+
+theorem Inv.item_out {P : Params} {init : Fs} {last : Cfg} {st : State} (hI : Inv P init last st)
+    {j : Nat} {it : Item} (hj : st.item? j = some it) : it.output = outPath P it.source := by
+  obtain ⟨it', h1, _, h3⟩ := hI.nm_item _ _ (hI.item_nm j it hj)
+  rw [hj] at h1; simp at h1; subst h1; exact h3
+
+/-- `Inv` plus: when nothing was created since the last `collect_work`, every source has an item -/
+def Good (P : Params) (init : Fs) (last : Cfg) (st : State) : Prop :=
+  Inv P init last st ∧ (st.hasCreated = false → Synced P st) ∧ st.lastHash = some (P.configHash last)
+
+theorem startsWith_output_of_input {P : Params} {init : Fs} (hWF : WF P init) {p : Path}
+    (h : startsWith p P.input = true) : startsWith p P.output = false := by
+  have h1 := hWF.sepIn
+  have h2 := hWF.sepOut
+  simp only [startsWith] at *
+  cases h3 : P.output.isPrefixOf p with
+  | false => rfl
+  | true =>
+    rw [List.isPrefixOf_iff_prefix] at h h3
+    rcases List.prefix_or_prefix_of_prefix h h3 with h4 | h4
+    · have := List.isPrefixOf_iff_prefix.2 h4; rw [this] at h2; cases h2
+    · have := List.isPrefixOf_iff_prefix.2 h4; rw [this] at h1; cases h1
+
+theorem outPath_startsWith (P : Params) (p : Path) : startsWith (outPath P p) P.output = true := by
+  simp [startsWith, outPath, List.isPrefixOf_iff_prefix]
+
+theorem step_edit_good {P : Params} {init : Fs} {last : Cfg} {st : State} {fuel : Nat} (p : Path) (c : Content)
+    (hWF : WF P init) (hG : Good P init last st) (hreg : regionOfWrite P last st p c false = none) :
+    ∃ st', step P fuel st (.edit p c) = .ok st' ∧ Good P init last st' ∧ st'.cfg = st.cfg := by
+  obtain ⟨hI, hS, hH⟩ := hG
+  -- the monitor's verdict
+  unfold regionOfWrite at hreg
+  have hpo : startsWith p P.output = false := by
+    cases h : startsWith p P.output with
+    | false => rfl
+    | true => simp [h] at hreg
+  simp only [hpo, Bool.false_eq_true, if_false, Bool.not_false, Bool.true_and, Bool.false_or] at hreg
+  have hnew : ¬ ((alookup st.fs p).isNone = true ∧ startsWith p P.input = true ∧ P.isLua p = true) := by
+    intro h; simp [h.1, h.2.1, h.2.2] at hreg
+  have hstale : (alookup st.fs p).isNone = true → staleAfter P last st (ainsert st.fs p c) = false := by
+    intro h
+    cases h2 : staleAfter P last st (ainsert st.fs p c) with
+    | false => rfl
+    | true =>
+      simp only [h, h2, Bool.and_self, if_true] at hreg
+      split at hreg <;> cases hreg
+  obtain ⟨st1, h1, hI1, hfr, hitem, hnolink, hself⟩ := sourceChanged_inv p hI
+  refine ⟨withFs st1 (ainsert st.fs p c), ?_, ⟨?_, ?_, hfr.lastHash.trans hH⟩, hfr.cfg⟩
+  · show ofOpt (sourceChanged (withFs st (ainsert st.fs p c)) p) = _
+    rw [sourceChanged_withFs, h1]; rfl
+  · -- the invariant after the write
+    have hfs : ∀ q, alookup (ainsert st.fs p c) q = if q = p then some c else alookup st1.fs q := by
+      intro q; rw [alookup_ainsert, hfr.fs]
+    have hdone : ∀ j it, st1.item? j = some it → it.status.isDone = true → st.item? j = some it := by
+      intro j it hj hd
+      rcases hitem j with h | h
+      · rw [← h]; exact hj
+      · rw [h] at hj
+        cases hsj : st.item? j with
+        | none => simp [hsj] at hj
+        | some it0 => simp [hsj] at hj; subst hj; simp [Item.reset, Status.isDone] at hd
+    have hT : ∀ j it, st1.item? j = some it → it.status.isDone = true →
+        P.T last (alookup (ainsert st.fs p c)) it.source = P.T last (alookup st1.fs) it.source := by
+      intro j it hj hd
+      have hj0 := hdone j it hj hd
+      rw [hfr.fs]
+      by_cases hex : (alookup st.fs p).isNone = true
+      · have hs := hstale hex
+        unfold staleAfter at hs
+        rw [List.any_eq_false] at hs
+        have := hs (some it) (nodeAt_mem hj0)
+        simp only [hd, Bool.true_and, Bool.not_eq_true', decide_eq_false_iff_not, Decidable.not_not] at this
+        simpa using this
+      · have hsrc : (it.source, j) ∈ st.nodeMap := hI.item_nm j it hj0
+        obtain ⟨hin, _, _⟩ := hI.src_in _ _ hsrc
+        apply hWF.depSound last (alookup st.fs) (alookup (ainsert st.fs p c)) it.source
+          (startsWith_output_of_input hWF hin)
+        intro q hq
+        rw [alookup_ainsert] at hq
+        by_cases hqp : q = p
+        · subst hqp
+          right
+          refine ⟨?_, ?_, ?_⟩
+          · intro hqs
+            have := hself j (hqs ▸ hsrc)
+            rw [hj, hj0] at this
+            simp at this
+            rw [this] at hd
+            simp [Item.reset, Status.isDone] at hd
+          · intro hmem
+            cases hst : it.status with
+            | notStarted => rw [hst] at hd; simp [Status.isDone] at hd
+            | done ok =>
+              have hd0 := (hI.done_ok j it ok hj0 hst).1 q
+              have hmem' : q ∈ it.deps := hd0.2 hmem
+              have := hI1.ext_sup j it hj hd q hmem'
+              exact hnolink j this
+          · intro hn; simp [hn] at hex
+        · simp [hqp] at hq
+    have houtne : ∀ j it, st1.item? j = some it → it.output ≠ p := by
+      intro j it hj hop
+      rw [hI1.item_out hj] at hop
+      have := outPath_startsWith P it.source
+      rw [hop, hpo] at this; cases this
+    constructor
+    · exact hI1.nm_fun
+    · exact hI1.nm_item
+    · exact hI1.item_nm
+    · exact hI1.free_ok
+    · exact hI1.free_nodup
+    · intro q i hq
+      obtain ⟨h1, h2, h3⟩ := hI1.src_in q i hq
+      refine ⟨h1, h2, ?_⟩
+      show (alookup (ainsert st.fs p c) q).isSome = true
+      rw [hfs]; by_cases hqp : q = p <;> simp [hqp, h3]
+    · exact hI1.ext_sub
+    · exact hI1.ext_sup
+    · exact hI1.ns_deps
+    · intro j it ok hj hs
+      have hd : it.status.isDone = true := by rw [hs]; rfl
+      show (∀ d, d ∈ it.deps ↔ d ∈ (P.T last (alookup (ainsert st.fs p c)) it.source).deps) ∧
+        ok = (P.T last (alookup (ainsert st.fs p c)) it.source).out.isSome ∧
+        alookup (ainsert st.fs p c) it.output = (P.T last (alookup (ainsert st.fs p c)) it.source).out
+      rw [hT j it hj hd, hfs]
+      simp only [houtne j it hj, if_false]
+      exact hI1.done_ok j it ok hj hs
+    · intro q hq
+      rcases hI1.out_other q hq with h | h | h
+      · exact Or.inl h
+      · exact Or.inr (Or.inl h)
+      · right; right
+        show alookup (ainsert st.fs p c) q = _
+        rw [hfs]
+        have : q ≠ p := by intro hqp; rw [hqp, hpo] at hq; cases hq
+        simp [this, h]
+    · exact hI1.rm_src
+  · intro hc
+    have hc0 : st.hasCreated = false := by rw [← hfr.hasCreated]; exact hc
+    intro q hq hin hlua
+    have hq' : (alookup (ainsert st.fs p c) q).isSome = true := hq
+    rw [alookup_ainsert] at hq'
+    have hnm : (withFs st1 (ainsert st.fs p c)).nodeMap = st.nodeMap := hfr.nodeMap
+    rw [hnm]
+    by_cases hqp : q = p
+    · subst hqp
+      cases hex : alookup st.fs q with
+      | none => exact absurd ⟨by simp [hex], hin, hlua⟩ hnew
+      | some c0 => exact hS hc0 q (by simp [hex]) hin hlua
+    · simp [hqp] at hq'
+      exact hS hc0 q hq' hin hlua
+
+
 end DarkluaModel.C10
